@@ -1,6 +1,6 @@
 (* C03 property theorems. This file contains only statements closed by
    [exact lemma] and Print Assumptions. *)
-From V Require Import Common.Base C03.Num C03.SpecOps C03.NumProofs C03.Tree C03.Fold C03.PowProofs C03.MiniJS C03.Worlds C03.TreeProofs C03.TreeProofs2 C03.TreeProofs3 C03.TreeProofs4 C03.TreeProofs5 C03.TreeProofs6 C03.Refuted.
+From V Require Import Common.Base C03.Num C03.SpecOps C03.NumProofs C03.Tree C03.Fold C03.PowProofs C03.MiniJS C03.Worlds C03.TreeProofs C03.TreeProofs2 C03.TreeProofs3 C03.TreeProofs4 C03.TreeProofs5 C03.TreeProofs6 C03.TreeProofs7 C03.TreeProofs8 C03.TreeProofs9 C03.Refuted.
 
 (* js_ast.ToInt32 computes ECMA-262 ToInt32 for every float64 (finite dyadic of
    any magnitude, NaN, infinities), whatever Go's implementation-defined
@@ -132,6 +132,36 @@ Theorem simplify_boolean_keeps_flags :
 Proof. exact simplify_boolean_flags. Qed.
 Print Assumptions simplify_boolean_keeps_flags.
 
+(* an expression never completes with the internal short-circuit marker of
+   optional chains: a chain ends inside the expression that contains it *)
+Theorem eval_never_short :
+  forall (W : world) e tr t, eval W tr e <> Some (t, Throw VShort).
+Proof. exact eval_no_short. Qed.
+Print Assumptions eval_never_short.
+
+(* SimplifyUnusedExpr (with optional-chain insertion switched off): in every
+   world_ok world, whenever the unused expression e evaluates, its simplification
+   has the same trace, the same kind of completion and the same thrown value.
+   Covers templates, array/object literals with spreads, pure calls and new,
+   conditionals, logical operators (left operand through SimplifyBooleanExpr),
+   equality operators, typeof, and unused string-addition chains.
+   PARTIAL: [no_bad] excludes exactly the two shapes on which the statement is
+   false of the real code (refuted below): an object literal without spread
+   that has a computed key (finding A) and a pure call that is optional or
+   continues a chain (finding K).  The full statement with optional-chain
+   insertion (noOptChain = false) is false for parenthesized chains (finding J,
+   refuted below) and is not proved for the remaining inputs.
+   Full statement: forall e, flags_ok W e -> ... same_effects (eval e) (eval_unused (simplify_unused ub noOC e)) *)
+Theorem simplify_unused_sound_partial :
+  forall (W : world), world_ok W ->
+    forall e tr res,
+    flags_ok W e -> no_bad e ->
+    simplify_unused (w_unbound W) true e <> UFuel ->
+    eval W tr e = Some res ->
+    same_effects (Some res) (eval_unused W tr (simplify_unused (w_unbound W) true e)).
+Proof. exact simplify_unused_sound_partial_all. Qed.
+Print Assumptions simplify_unused_sound_partial.
+
 (* CheckEqualityIfNoSideEffects on two literals (also inlined enum constants)
    answers what IsStrictlyEqual / IsLooselyEqual compute on their values: -0 == 0,
    NaN != NaN, null == undefined, true == 1, ... (two bigint literals are compared
@@ -164,3 +194,22 @@ Theorem simplify_unused_object_key_refuted :
             /\ ~ simplify_unused_preserves_effects e.
 Proof. exact simplify_unused_object_key_refuted_w. Qed.
 Print Assumptions simplify_unused_object_key_refuted.
+
+(* REFUTED (finding J): with optional-chain insertion, a != null && (a.q?.y).z is
+   simplified to a?.q?.y.z, which short-circuits where the input throws *)
+Theorem simplify_unused_paren_chain_refuted :
+  simplify_unused ub false paren_chain
+    = UExpr (EDot (EDot (EDot (EId 1 false false) s_q 1 false false) s_y 1 false false) s_z 2 false false)
+  /\ eval WJ [] paren_chain = Some ([], Throw (VStr s_TypeError))
+  /\ eval_unused WJ [] (simplify_unused ub false paren_chain) = Some ([], Val VUndef).
+Proof. exact simplify_unused_paren_chain_refuted_w. Qed.
+Print Assumptions simplify_unused_paren_chain_refuted.
+
+(* REFUTED (finding K): an unused pure optional call is unwrapped to its arguments,
+   which the input does not evaluate when the callee is null *)
+Theorem simplify_unused_pure_optional_call_refuted :
+  simplify_unused ub true pure_optional_call = UExpr (ECall (EId 1000 false false) [] 0 false)
+  /\ eval WJ [] pure_optional_call = Some ([], Val VUndef)
+  /\ eval_unused WJ [] (simplify_unused ub true pure_optional_call) = Some ([1000], Val VUndef).
+Proof. exact simplify_unused_pure_optional_call_refuted_w. Qed.
+Print Assumptions simplify_unused_pure_optional_call_refuted.
